@@ -154,7 +154,9 @@ OnRunEnd(e) ==
         v7 == IF e.ret /\ badStat # {}
               THEN v6 \cup {IF \A d \in badStat : t0Involved(d) THEN "EffectPersists@t0" ELSE "EffectPersists"}
               ELSE v6
-    IN [s EXCEPT !.ph = "done", !.t = e.t, !.viol = v7,
+        (* C17: a run during which the stability criterion was violated at a stored step does not go on and report success *)
+        v8 == IF e.ret /\ e.unstable THEN v7 \cup {"UnstableRunReportedAsSuccess"} ELSE v7
+    IN [s EXCEPT !.ph = "done", !.t = e.t, !.viol = v8,
                  !.drift = D(s.drift, s.ph \in {"top", "begin", "rej", "step"}, "order_run_end")]
 
 (* C14: the resumed / snapshot-restored run against the uninterrupted run of the same scenario *)
